@@ -55,7 +55,7 @@ PROVED = ('Over the model: set_value queues index || value in the declared type 
           'lands in the cache and is handed exactly once to each registered observer, cache = device value whenever no value '
           'packet for that parameter is in flight, and a misc reply is handed to the callback of the request it answers and '
           'to no other provided no two pending requests share command and parameter.')
-NOT_PROVED = ('Extended-type fetch (_ExtendedTypeFetcher) and TOC download are outside the model; disconnect/close while '
+NOT_PROVED = ('TOC download is outside the model (C03); disconnect/close while '
               'requests are pending; protocol version < 4 state machine; float rounding; byte-code level preemption. Two '
               'pending misc requests for the same command and the same parameter share the first reply (known finding F04b).')
 
